@@ -50,6 +50,7 @@ type Result struct {
 	WallMs    int64    `json:"wall_ms"`
 	Callbacks int64    `json:"callbacks,omitempty"`
 	G0        int      `json:"-"`
+	Parser    *parserObs `json:"parser,omitempty"`
 	LeakStack string   `json:"leak_stack,omitempty"`
 }
 
